@@ -34,6 +34,19 @@ def model_check(ctx, which, quick):
             if cov and r.coverage.get(act, (0, 0))[0] == 0:
                 raise tlc.ModelError("vacuous: action %s never taken in %s" % (act, cfg))
         rep.add_tlc("%s/%s" % (mod, cfg), r)
+    if which == "C11":
+        # the end-node choice before fix d619062 must lose the first-best (negative control); the fixed rule holds on the
+        # same family at three frames
+        r = tlc.run("MC_LatticeBuild.tla", "LatticeBuild_tie.cfg", SPEC, workers=8, timeout=900, heap="8g", lib=[res])
+        if r.violated != "PartialLatticeInv":
+            raise tlc.ModelError("negative control failed: keeping one of several latest-exit nodes should violate "
+                                 "PartialLatticeInv, got %s" % r.violated)
+        rep.notes["negative_control"] = "LatticeBuild_tie.cfg (end node = first of several latest-exit nodes) violates PartialLatticeInv as expected"
+        if not quick:
+            r = tlc.run("MC_LatticeBuild.tla", "LatticeBuild_tiefixed.cfg", SPEC, workers=8, timeout=3000, heap="12g", lib=[res])
+            if r.violated:
+                raise tlc.ModelError("LatticeBuildImpl violates %s in LatticeBuild_tiefixed.cfg:\n%s" % (r.violated, r.out[-2500:]))
+            rep.add_tlc("MC_LatticeBuild.tla/LatticeBuild_tiefixed.cfg", r)
 
 
 def nontrivial_key(chunk, which):
@@ -136,7 +149,7 @@ def synthetic_dag_cases(ctx, rng, quick, base):
                 toks += [words[i].encode().hex(), str(sf[i]), str(min(efs)), str(max(efs))]
             for a, b, v in links:
                 toks += [str(a - 1), str(b - 1), str(sc[v]), str(sf[b - 1] - 1)]
-            s += ["synlat " + " ".join(toks), "lattice syn 1", "nbest syn 60"]
+            s += ["synlat " + " ".join(toks), "lattice syn 1", "nbest syn 60 1"]
         s.append("free")
         cases.append(("syn-dags#%d" % (base + c0 // per), s))
     return cases
@@ -158,7 +171,7 @@ def run_which(ctx, which):
         cases = [decmatrix.make_case(rng, ctx, i, want) for i in range(n)]
         # lattices built by the unchanged code from every history table the abstract search reaches
         q = (lambda tag: ["result " + tag, "lattice %s 0" % tag]) if which == "C11" else \
-            (lambda tag: ["result " + tag, "lattice %s 1" % tag, "nbest %s 30" % tag])
+            (lambda tag: ["result " + tag, "lattice %s 1" % tag, "nbest %s 30 1" % tag])
         cases += synhist.cases(ctx, rng, quick, q, n + 500, count=1500 if quick else None)
         if which == "C12":
             cases += deep_nbest_cases(rng, 3 if quick else 20, n)
